@@ -220,11 +220,16 @@ class Escape:
         for i, s in enumerate(self.suppressions):
             if s.get("kind", "drop") == "drop" and s["in"] == fr.ref and s["exc"] in (cls, "*"):
                 if s.get("requires_atom"):
-                    # the checkable premise of the reason: the condition still guards the statement
-                    from .q import natom as _natom
-
+                    # the checkable premise of the reason: the statement cannot be reached with the condition false
+                    # (paths are pruned by the negated condition, locals read through - so the premise survives nesting,
+                    # merging, early returns and hoisting of the test)
                     f_ = self.fn(fr)
-                    if _natom(s["requires_atom"]) not in f_.guard_atoms(st) + f_.lexical_guards(st, expand=False):
+                    neg = atoms_of(ast.parse(s["requires_atom"], mode="eval").body, False, expand=lambda e: f_.expand(e, 4))
+                    try:
+                        tgt = f_.cfg.node_of(st)
+                    except KeyError:
+                        continue
+                    if f_.reaches_assuming(f_.cfg.entry, tgt, neg, expand=True):
                         continue
                 if "stmt_re" in s:
                     # same statement up to the name of one local (named group-free regex over the normalised text)
